@@ -1195,6 +1195,7 @@ pub(crate) fn verif_format_trace(src: &str, path: &Path) -> VerifFormatTrace {
         &mut visitor.line_edits,
         &mut visitor.processed_lines,
     );
+    drop_edits_inside_tokens(src, &vfs_path, &mut visitor.line_edits);
 
     let span_edits = visitor
         .span_edits
